@@ -303,6 +303,12 @@ static void *sender_thread(void *arg)
     struct thr *t = arg; struct side *s = t->s; vrng r = { t->seed };
     int attempts = 0;
     while (s->budget > 0 && attempts < s->budget * 6 + 50) {
+        if (s->budget == 1 && t->close_at_end && prop == P_C02 && !s->e->plan.eintr_fired && vrnd_p(&r, 50)) {
+            /* the last call before the close: the layer below refuses the first writes, and a signal arrives during one of the waits that follow
+             * (the wait for room, or the wait for the accepted bytes to leave).  Whatever the call reports as accepted must be out before it returns */
+            s->e->plan.forced_refusals = 2; s->e->plan.eintr_at = (int)s->e->plan.n_blocking_polls + 1 + (int)vrnd_n(&r, 2); s->e->plan.eintr_fired = false;
+            vobs("last_blocking_send_with_refusals_and_a_signal", 1);
+        }
         int rc = do_send(s, t->c, &r, t->maxmsg);
         attempts++;
         if (rc == 1 || rc == -2) s->budget--;
@@ -561,7 +567,7 @@ static void one_case(long idx, void *arg)
                 bool broke = false;
                 for (int k = 0; k < 300 && !broke; k++) { int rc = do_send(&sd[1], &c, &r, maxmsg); if (rc == -1) broke = true; else if (rc == 0) { if (vx_finish(sd[1].e) < 0 && errno != EAGAIN) broke = true; struct pollfd none; vs_real_poll(&none, 0, 1); } }
                 complete_expected[1] = false;
-                if (broke) vobs("receiver_send_noticed_the_close_first", 1);
+                if (broke) { vobs("receiver_send_noticed_the_close_first", 1); owed_despite_error[0] = true; }      /* the receiver's own failed send changes nothing about what it is owed */
             }
             bool q = drain(sd, &c, &r, true);
             if (!q) { vobs("drain_gave_up", 1); ok = false; }
@@ -617,7 +623,10 @@ static void one_case(long idx, void *arg)
         if (ok && blk_sender) pthread_join(ts.th, NULL);
         if (ok && blk_receiver) pthread_join(tr.th, NULL);
         if (sd[0].e->conn_error_seen) complete_expected[0] = false;
-        if (sd[1].e->term != 1) { complete_expected[0] = false; vobs("close_seen_as_error", 1); } else vobs("close_seen_as_zero", 1);
+        if (sd[1].e->term == 2 && blk_sender && complete_expected[0] && !sd[0].e->conn_error_seen && sd[1].e->n_att == 0) {
+            /* every blocking xcm_send returned success, the sender closed, the receiver never sent: everything accepted is owed whatever the way the end is seen */
+            owed_despite_error[0] = true; vobs("close_seen_as_error_after_clean_flush", 1);
+        } else if (sd[1].e->term != 1) { complete_expected[0] = false; vobs("close_seen_as_error", 1); } else vobs("close_seen_as_zero", 1);
         if (sd[0].e->plan.eintr_fired) vobs("eintr_injected", 1);
         if (c.ctl_disturb && sd[0].e->plan.fail_fired) vobs("control_accept_failures_during_blocking_send", 1);
         for (int i = 0; i < n_ctl; i++) close(ctl_fds[i]);
